@@ -12,7 +12,7 @@ CHECK = {
     "design_ref": "DESIGN.md section 3 C05",
     "targets": [{"name": "TestC05RoundTrip",
                  "quick": {"cases": 4000, "shards": 2, "soft_s": 40},
-                 "thorough": {"cases": 60000, "shards": 16, "soft_s": 300}}],
+                 "thorough": {"cases": 200000, "shards": 16, "soft_s": 330}}],
     "floors": {"three_tensors_unaligned": 0.15, "nondefault_alignment": 0.3},
     "rule": "rapid-generated (KV map over every value type WriteGGUF accepts incl. empty/large strings and arrays "
             "around the 1024 collect limit, alignment in {absent,1..256}, 0-40 uniquely named tensors of every kind "
